@@ -138,6 +138,14 @@ pub fn build_workload_biased(
         cfg.bias_tags = true;
         cfg.f_tags = true;
         cfg.f_filters = true;
+        // half of the tag-biased cases also lean toward @optional edges, so that tags, folds,
+        // coercions and filters under *missing* optionals are common rather than rare
+        if tapes.query.draw(2) == 1 {
+            cfg.bias_optional = true;
+            cfg.f_optional = true;
+            cfg.max_vertices = cfg.max_vertices.max(4);
+            cfg.max_depth = cfg.max_depth.max(2);
+        }
     }
     let q = gen_query(&world, &mut tapes.query, cfg);
     let args = gen_args(&q, &world, &mut tapes.args);
